@@ -928,9 +928,15 @@ mod pipeline {
         /// `detached()` was called.  This is equivalent to what the
         /// shell does.
         pub fn popen(self) -> PopenResult<Vec<Popen>> {
-            // the commands started before a failure are waited for here, by
-            // being dropped
-            self.popen_or_started().map_err(|(err, _started)| err)
+            self.popen_or_started().map_err(|(err, mut started)| {
+                // The commands started before the failure are waited for
+                // here, by being dropped.  Release every pipe end held for
+                // them first: one of them blocked on a pipe of its own
+                // (say, stderr) would otherwise keep an earlier one, which
+                // is waited for first, from ever exiting.
+                release_pipes(&mut started);
+                err
+            })
         }
 
         // Like popen(), but a failure also hands back the commands started
@@ -1035,6 +1041,8 @@ mod pipeline {
                     // writing to the stderr pipe, which nobody reads yet:
                     // close our end before the commands are waited for.
                     drop(err_read);
+                    let mut started = started;
+                    release_pipes(&mut started);
                     drop(started);
                     return Err(err);
                 }
